@@ -5,6 +5,7 @@ ONE offset d with ids == {i + d}, every shifted id above every earlier id, and e
 file shifted by the same d (plain attributes, aggregates, selects, aggregates of selects, complex parts).
 """
 import copy
+import os
 import random
 import re
 from .. import gen_p21, p21fam, ref_p21, run, probes
@@ -100,7 +101,15 @@ def judge(chk, lib, pops, modes):
     for n, t in enumerate(texts):
         files['file%d.p21' % n] = t
     with p21fam.Scratch('c14') as sc:
-        paths = [sc.write('f%d.p21' % n, t) for n, t in enumerate(texts)]
+        if sum(len(t) for t in texts) % 3 == 0:
+            # the files share their base name and differ only in the directory (dirA/part.p21, dirB/part.p21 ...)
+            paths = []
+            for n, t in enumerate(texts):
+                os.makedirs(sc.path('dir%d' % n), exist_ok=True)
+                paths.append(sc.write(os.path.join('dir%d' % n, 'part.p21'), t))
+            chk.tag('files with the same base name in different directories')
+        else:
+            paths = [sc.write('f%d.p21' % n, t) for n, t in enumerate(texts)]
         ops = ['read', paths[0]]
         for p in paths[1:]:
             ops += ['append', p]
